@@ -147,6 +147,16 @@ impl Prop for C02 {
                 }
             })
         }));
+        v.push(Scope::new("cdata-end-runs", "every string up to length 5 over {], >, U+0001, U+FFFE, x} in the plain, quoted and legend-declaration sinks (']]>' must never reach character data, also when characters that XML cannot represent are dropped from between its parts)", move |f| {
+            enumr::strings_upto(&[']', '>', '\u{1}', '\u{fffe}', 'x'], 5, &mut |s| {
+                let st: String = s.iter().collect();
+                if st.contains(']') && st.contains('>') {
+                    for sink in [0usize, 2, 3] {
+                        f(Case::snx("", vec![sink as i64, 0], vec![st.clone()]));
+                    }
+                }
+            })
+        }));
         v.push(Scope::new("escaped-quotes", "quoted strings containing backslash-quote escapes and other backslashes: the text element must hold the characters between the outer quotes verbatim", |f| {
             for inner in ["say \\\"hi\\\"", "\\\"", "a\\\"b", "x\\y", "\\\"\\\"", "<\\\">", "一\\\"二", "end\\\\"] {
                 f(Case::snx("", vec![6, 0], vec![inner.to_string()]));
